@@ -106,6 +106,8 @@ def run(rec, cfg):
     from ..workloads import text as _WT
 
     W8.two_parsers(rec, rng, _WT.corpus(), "C03", cfg.scale(6, 200))
+    if cfg.shard == 2 % cfg.nshards:
+        W8.marathon(rec, rng, "C03", altered_key="grammar/earlier-result-altered")
     bigrams = set()
     for src, s in strings(cfg, rng):
         if cfg.out_of_time():
@@ -146,6 +148,12 @@ def run(rec, cfg):
 
 
 def replay(rec, cfg, w):
+    if w.get("marathon") or any(isinstance(h, (list, tuple)) and len(h) > 1 and str(h[1]).endswith("w + 1") for h in (w.get("history") or [])[-50:]):
+        from ..workloads import histories as _W9
+
+        MP.attach_parser("C03", {"grammar", "closure", "history"})
+        _W9.marathon(rec, cfg.rng("replay-marathon"), "C03")
+        return
     if w.get("two_parsers"):
         from ..workloads import histories as _W8
         from ..workloads import text as _WT2
